@@ -242,6 +242,12 @@ func (d *Decoder) reset() {
 	d.messages = nil
 	d.crc = 0
 	d.fileId = nil
+	d.localMessageDefinitions = [proto.LocalMesgNumMask + 1]*proto.MessageDefinition{}
+	d.developerDataIndexes = d.developerDataIndexes[:0]
+	for i := range d.fieldDescriptions {
+		d.fieldDescriptions[i] = nil
+	}
+	d.fieldDescriptions = d.fieldDescriptions[:0]
 }
 
 // releaseTemporaryObjects releases objects that being created during a single decode process
